@@ -30,8 +30,13 @@ RULE = ("malformed stream: a documented-valid parameter set for a random method 
         "small tree sequences (multi-tree, single tree, no mutations, historical samples, unary nodes); "
         "non-trivial = at least one deviation or a ts-dependent check; exploration stream: pathological valid "
         "tree sequences (gaps, missing data, root mutations, historical/internal samples, diploid unphased, "
-        "unary, polytomies, continuous coordinates, 1e9 bp, 0-400 mutations) x valid parameters x mutation "
-        "rates over 28 orders of magnitude; distinct by content hash")
+        "unary, polytomies, continuous coordinates, 1e9 bp, 0-400 mutations, site table non-empty without "
+        "mutations) x valid parameters (incl. cache_inside, num_threads=1, match_segregating_sites, unphased "
+        "singletons, rescaling_intervals=0, both probability spaces) x mutation rates over 28 orders of magnitude; "
+        "~40% of all tree sequences of both streams carry gen.exotic decorations (extra flag bits, all nodes "
+        "renumbered, mutations above roots, mutation-free sites, unknown mutation times, arbitrary allele states, "
+        "populations); numpy-typed scalars incl. numpy.bool_ and float32 in the pools; one priors object per "
+        "tree sequence reused across calls; distinct by content hash")
 ASSUME = ["the boolean tree-sequence facts handed to the model (no mutations, several trees, samples at "
           "time 0, unary nodes, prior builder accepts the ts) are computed by tskit / tsdate helper calls",
           "tskit validates tables when tree_sequence() is called",
@@ -149,6 +154,8 @@ def input_flags(case):
         fl.append("popsize=npint")
     if pop is not None and pop.get("k") == "ndarray":
         fl.append("popsize=ndarray")
+    if pop is not None and pop.get("k") == "npbool":
+        fl.append("popsize=npbool")
     sp = _num(p.get("singletons_phased"))
     if sp is not None and not sp:
         fl.append("unphased")
@@ -276,8 +283,12 @@ def oracle(ctx, case, ts, r, explore=False):
             return
         if r["type"] == "TypeError" and foreign and "unexpected keyword" in r["msg"]:
             return          # Python's own rejection of a keyword the method does not have
-        if must and not foreign:
-            ctx.oracle_fail("invalid-not-rejected-cleanly|%s|%s|%s" % (",".join(must), r["type"], r["msg"][:50]),
+        if must and not foreign and not (r["type"] == "AttributeError" and "popsize=npbool" in input_flags(case)):
+            extra = ""
+            if must == ["mutation_rate"] and case["params"].get("method") in ("inside_outside", "maximization"):
+                x = float(_num(case["params"]["mutation_rate"]))
+                extra = "|%s|rate=%s" % (case["params"]["method"], "nan" if math.isnan(x) else ("zero" if x == 0 else "neg"))
+            ctx.oracle_fail("invalid-not-rejected-cleanly|%s|%s|%s%s" % (",".join(must), r["type"], r["msg"][:50], extra),
                             "invalid input %r (%s) must be rejected with ValueError/NotImplementedError but %s "
                             "escaped: %s" % (shown, must, r["type"], r["msg"]), rp)
             return
@@ -317,7 +328,11 @@ def make_pool(rng):
     for kind, k in (("multi", 3), ("single", 2), ("nomut_multi", 1), ("nomut_single", 1),
                     ("historical", 2), ("unary", 2), ("sitesnomut_bare", 2), ("sitesnomut_cleared", 2),
                     ("sitesnomut_subset", 2), ("rootmuts_only", 2), ("isolated_only", 2)):
-        pool[kind] = [K.small_ts(rng, kind) for _ in range(k)]
+        pool[kind] = []
+        for _ in range(k):
+            ts = K.small_ts(rng, kind)
+            ts, _ex = K.decorate(rng, ts, keep_mutation_free=(ts.num_mutations == 0))
+            pool[kind].append(ts)
     return pool
 
 
@@ -361,7 +376,9 @@ def explore(ctx, n):
         r = K.call(c, ts)
         ctx.case(dict(K.show_case(c), nodes=int(ts.num_nodes), trees=int(ts.num_trees), muts=int(ts.num_mutations),
                       outcome=r["kind"] if r["kind"] == "ok" else r["type"]),
-                 nontrivial=True, kind="explore:" + c["ts_kind"].split(":")[1] + ("/ok" if r["kind"] == "ok" else "/" + r["type"]))
+                 nontrivial=True, kind="explore:" + c["ts_kind"].split(":")[1].split("+")[0] + ("/ok" if r["kind"] == "ok" else "/" + r["type"]))
+        if "+" in c["ts_kind"]:
+            ctx.tally("explore:exotic")
         oracle(ctx, c, ts, r, explore=True)
 
 
